@@ -729,7 +729,7 @@ func init() {
 			c.Inputs(spBreaks, c.Pick(7, 8), c06BreaksDriver)
 			c.Inputs(spCodeSpan, c.Pick(8, 9), c06CodeSpanDriver)
 			c.Inputs(spLinkTail, c.Pick(6, 7), c06LinkTailDriver)
-			c.Inputs(spRawTag, c.Pick(5, 7), c06RawDriver)
+			c.Inputs(spRawTag, c.Pick(5, 6), c06RawDriver)
 			c.Inputs(spRawAttr, c.Pick(6, 7), c06RawDriver)
 			c.Inputs(spRawDecl, c.Pick(5, 6), c06RawDriver)
 			nl := c.Pick(3, 4)
